@@ -21,11 +21,11 @@ var decodeCallees = []string{"json.Unmarshal", "hex.DecodeString", "DecodeString
 // protojson.Unmarshal, which either rejects it (the error resurfaces as 400) or
 // accepts a legitimate proto3 JSON alternative form of the same value.
 var swallowExcused = map[string]string{
-	"generateSingularInt64FieldUnmarshal json.Unmarshal": "a non-number token stays as it is; protojson accepts a decimal string for int64 (proto3 JSON) and rejects anything else",
-	"generateRepeatedInt64FieldUnmarshal json.Unmarshal": "same, element-wise",
-	"generateTimestampFieldUnmarshal json.Unmarshal":     "a non-integer token stays; protojson accepts only an RFC 3339 string there and rejects anything else",
-	"generateTimestampFieldUnmarshal time.Parse":         "a string that is not a date stays; protojson accepts only RFC 3339 and rejects anything else",
-	"generateBytesFieldUnmarshal json.Unmarshal":         "a non-string token stays; protojson rejects non-string bytes values",
+	"generateSingularInt64FieldUnmarshal json.Unmarshal":             "a non-number token stays as it is; protojson accepts a decimal string for int64 (proto3 JSON) and rejects anything else",
+	"generateRepeatedInt64FieldUnmarshal json.Unmarshal":             "same, element-wise",
+	"generateTimestampFieldUnmarshal json.Unmarshal":                 "a non-integer token stays; protojson accepts only an RFC 3339 string there and rejects anything else",
+	"generateTimestampFieldUnmarshal time.Parse":                     "a string that is not a date stays; protojson accepts only RFC 3339 and rejects anything else",
+	"generateBytesFieldUnmarshal json.Unmarshal":                     "a non-string token stays; protojson rejects non-string bytes values",
 	"generateBytesFieldUnmarshal base64.RawStdEncoding.DecodeString": "protojson's bytes decoder accepts standard and URL alphabets with or without padding and yields the same bytes",
 	"generateBytesFieldUnmarshal base64.URLEncoding.DecodeString":    "same",
 	"generateBytesFieldUnmarshal base64.RawURLEncoding.DecodeString": "same",
